@@ -268,22 +268,23 @@ def finish(prop, tier, seed, t0, res, rule, assumptions, oracle_version=None):
     known_rec = {}
     new = []
     seen_digests = set()
+    dump_all = open(os.environ['VERIF_DUMP'], 'w') if os.environ.get('VERIF_DUMP') else None
     for f in res.fails:
         d = f.digest()
         if d in seen_digests:
             continue
         seen_digests.add(d)
+        if dump_all is not None:
+            # maintenance only (never part of a registered check): dump every failing case, explained or not, for review / digest files
+            dump_all.write(json.dumps(f.to_json(), ensure_ascii=False, default=repr) + '\n')
         rec = match_finding(findings, f)
         if rec is not None:
             known[rec['id']] += 1
             known_rec[rec['id']] = rec
         else:
             new.append(f)
-    if os.environ.get('VERIF_DUMP'):
-        # maintenance only (never part of a registered check): dump every unexplained failure for review
-        with open(os.environ['VERIF_DUMP'], 'w') as fh:
-            for f in new:
-                fh.write(json.dumps(f.to_json(), ensure_ascii=False, default=repr) + '\n')
+    if dump_all is not None:
+        dump_all.close()
     if os.environ.get('VERIF_TRIAGE'):
         bysig = collections.OrderedDict()
         for f in new:
